@@ -178,7 +178,13 @@ impl Output {
                         temp_name.push(path.file_name().unwrap_or_default());
                         temp_name.push(format!(".{}.wild-delete", std::process::id()));
                         let renamed_old_file = path.with_file_name(temp_name);
-                        let rename_status = std::fs::rename(&path, &renamed_old_file);
+                        // Don't move a directory out of the way. Creating the output file then
+                        // fails, which is also what GNU ld does.
+                        let rename_status = if path.is_dir() {
+                            Err(std::io::ErrorKind::IsADirectory.into())
+                        } else {
+                            std::fs::rename(&path, &renamed_old_file)
+                        };
 
                         // If there was an old output file that we renamed, then delete it. We do so
                         // from a separate task so that it can run in the background while other
